@@ -41,17 +41,19 @@ struct Case {
     store: StoreContent,
     /// make only: the exclude list names an existing credential
     exclude_hit: bool,
+    /// get only: 0 = no allow list, 1 = allow list naming the first seeded credential id, 2 = naming an unknown id
+    allow: u8,
 }
 
 impl Case {
     fn json(&self, index: u64) -> Value {
         json!({"index": index, "level": "ctap", "op": if self.make {"make_credential"} else {"get_assertion"}, "rk": self.rk, "up": self.up, "uv": self.uv,
             "verification_capability": self.ver_cap, "presence_capability": self.pres_cap, "uv_outcome": format!("{:?}", self.outcome),
-            "pin_auth": self.pin_auth, "store": format!("{:?}", self.store), "exclude_hit": self.exclude_hit})
+            "pin_auth": self.pin_auth, "store": format!("{:?}", self.store), "exclude_hit": self.exclude_hit, "allow_list": self.allow})
     }
     /// parameters other than "is there a matching credential"
     fn group_key(&self) -> String {
-        format!("{}|{}|{}|{}|{:?}|{}|{:?}|{}", self.make, self.rk, self.up, self.uv, self.ver_cap, self.pres_cap, self.outcome, self.pin_auth)
+        format!("{}|{}|{}|{}|{:?}|{}|{:?}|{}|{}", self.make, self.rk, self.up, self.uv, self.ver_cap, self.pres_cap, self.outcome, self.pin_auth, self.allow)
     }
     /// one of the consent-missing classes of the statement
     fn consent_missing(&self) -> Option<&'static str> {
@@ -99,7 +101,12 @@ fn all_cases() -> Vec<Case> {
                                             if exclude_hit && (!make || store == StoreContent::NoMatch) {
                                                 continue;
                                             }
-                                            v.push(Case { make, rk, up, uv, ver_cap, pres_cap, outcome, pin_auth, store, exclude_hit });
+                                            for allow in [0u8, 1, 2] {
+                                                if allow > 0 && make {
+                                                    continue;
+                                                }
+                                                v.push(Case { make, rk, up, uv, ver_cap, pres_cap, outcome, pin_auth, store, exclude_hit, allow });
+                                            }
                                         }
                                     }
                                 }
@@ -231,7 +238,12 @@ fn run_ctap(rep: &mut Report, c: &Case, index: u64, outcomes: &mut HashMap<Strin
                 Err(e) => (false, Some(status_byte_ref(&e)), None, vec![], None),
             }
         } else {
-            let mut req = ga_request(RP, &[2u8; 32], None, None, c.up, c.uv);
+            let allow = match c.allow {
+                1 => Some(vec![descriptor(&[0xA0; 16])]),
+                2 => Some(vec![descriptor(&[0xEF; 16])]),
+                _ => None,
+            };
+            let mut req = ga_request(RP, &[2u8; 32], allow, None, c.up, c.uv);
             req.options.rk = c.rk;
             if c.pin_auth {
                 req.pin_auth = Some(vec![1, 2, 3, 4].into());
@@ -310,7 +322,7 @@ fn run_client(rep: &mut Report, index: u64, register: bool, uvr: UserVerificatio
     let flags = if ok { authdata::decode(&ad).ok().map(|a| a.flags) } else { None };
     let after = rig.store.snapshot();
     let o = Observed { ok, status: None, flags, used_id: used, events: rig.log.snapshot(), store_changed: after != before };
-    let c = Case { make: register, rk: false, up: true, uv: uv_req, ver_cap, pres_cap: true, outcome, pin_auth: false, store, exclude_hit: false };
+    let c = Case { make: register, rk: false, up: true, uv: uv_req, ver_cap, pres_cap: true, outcome, pin_auth: false, store, exclude_hit: false, allow: 0 };
     rep.count(if ok { "client_ok" } else { "client_err" });
     judge(rep, "client", &cj, true, uv_req, c.consent_missing(), &o);
     if c.consent_missing().is_some() {
@@ -325,7 +337,7 @@ pub fn run(args: &Args) -> Report {
         "C04",
         &args.tier,
         args.seed,
-        "complete product operation x rk x up x uv x verification capability x presence capability x user-validation outcome (4 reports + 2 errors) x pin-auth x store content (no / one / two matching credentials, exclude-list hit or miss) at CTAP level, plus userVerification x capability x outcome x store content at client level; distinct by the tuple; every tuple is non-trivial (finite product)",
+        "complete product operation x rk x up x uv x verification capability x presence capability x user-validation outcome (4 reports + 2 errors) x pin-auth x store content (no / one / two matching credentials, exclude-list hit or miss; for assertions: no allow list / naming a held id / naming an unknown id) at CTAP level, plus userVerification x capability x outcome x store content at client level; distinct by the tuple; every tuple is non-trivial (finite product)",
     );
     rep.exhaustive = true;
     let only = replay_index(args);
